@@ -33,6 +33,7 @@ ENGINES = {  # name -> number in Model/Engines.v
     "limiter": 35,
     "payload": 41, "sized3": 13, "sized5": 23,
     "plstop3": 42, "plstop5": 43,
+    "ctlwrap3": 44, "ctlwrap5": 45,
     "iostate": 36,
     "timerrt": 37,
     "hs": 38,
